@@ -27,7 +27,11 @@ class OpResult {
   OpResult(const OpResult<T>& oth) : ptr_(oth ? new (buf_) T(*oth.ptr_) : nullptr) {}
 
   OpResult(OpResult<T>&& oth) : ptr_(oth ? new (buf_) T(std::move(*oth.ptr_)) : nullptr) {
-    oth.ptr_ = nullptr;
+    // The source becomes disengaged: its (moved-from) object must still be destroyed.
+    if (oth.ptr_) {
+      oth.ptr_->~T();
+      oth.ptr_ = nullptr;
+    }
   }
 
   OpResult& operator=(const OpResult& oth) {
@@ -56,6 +60,8 @@ class OpResult {
 
     if (oth) {
       ptr_ = new (buf_) T(std::move(*oth.ptr_));
+      // The source becomes disengaged: its (moved-from) object must still be destroyed.
+      oth.ptr_->~T();
       oth.ptr_ = nullptr;
     } else {
       ptr_ = nullptr;
